@@ -104,14 +104,14 @@ package scheduler
 //@   ensures new-queue-resolves-to-its-own-slot:
 //@             triemap[bq.platformQueuesTrie][platformKey] == old(len(bq.platformQueues)) + 1 &&
 //@             len(bq.platformQueues) == old(len(bq.platformQueues)) + 1 &&
-//@             bq.platformQueues[old(len(bq.platformQueues))] == r0 && r0.platformKey == platformKey
+//@             bq.platformQueues[old(len(bq.platformQueues))] == r0 && *(&r0.platformKey) == platformKey
 //@ func (*sizeClassQueue).remove
 //@   props C05
 //@   ensures removed-platform-no-longer-resolves:
-//@             len(pq.sizeClasses) == 0 ==> triemap[bq.platformQueuesTrie][pq.platformKey] == 0
+//@             len(pq.sizeClasses) == 0 ==> triemap[bq.platformQueuesTrie][*(&pq.platformKey)] == 0
 //@   ensures moved-queue-resolves-to-the-freed-slot:
-//@             len(pq.sizeClasses) == 0 && lastPQ != pq && lastPQ.platformKey != pq.platformKey ==>
-//@             triemap[bq.platformQueuesTrie][lastPQ.platformKey] == index + 1 && bq.platformQueues[index] == lastPQ
+//@             len(pq.sizeClasses) == 0 && lastPQ != pq && *(&lastPQ.platformKey) != *(&pq.platformKey) ==>
+//@             triemap[bq.platformQueuesTrie][*(&lastPQ.platformKey)] == index + 1 && bq.platformQueues[index] == lastPQ
 
 // A worker that is terminating (and therefore counts as drained) is never
 // handed a new task, also not after it slept with the lock released: the
